@@ -135,7 +135,7 @@ func RunC01(r *core.Run) {
 	nMsg := r.Pick(150000, 3000000)
 	r.Stage("gmsg", nMsg, func(w *core.Worker, idx int64) {
 		rr := core.NewRand(r.Seed, 0xC01, 1, uint64(idx))
-		o := gen.MsgOpts{MinHdrs: 1, MaxHdrs: 12, MultiNA: 40, MaxBody: 30, DupParams: rr.Bool()}
+		o := gen.MsgOpts{MinHdrs: 1, MaxHdrs: 12, MultiNA: 40, MaxBody: 30, TrailSemi: true, DupParams: rr.Bool()}
 		if rr.Intn(8) == 0 {
 			o.MaxHdrs = 40
 		}
